@@ -312,10 +312,14 @@ pub fn run_queued_deref_case(c: &QueuedDerefCase, dir: &Path) -> CaseResult {
 				let (tx, rx) = std::sync::mpsc::channel();
 				let db2 = db.clone();
 				// detached: if it blocks it is released when the guard goes away with the failure
-				std::thread::spawn(move || {
+				let handle = std::thread::spawn(move || {
 					let _ = tx.send(db2.process_commits().map(|_| ()).map_err(|e| e.to_string()));
 				});
 				let blocked = rx.recv_timeout(std::time::Duration::from_secs(4)).is_err();
+				if !blocked {
+					// the helper must have let go of its handle before the database is closed
+					let _ = handle.join();
+				}
 				if blocked {
 					fail!("process_commits-blocked-by-reader-lock", "process_commits did not return while the reader lock of a tree with a queued dereference was held")
 				}
